@@ -44,6 +44,11 @@ def enumerated(tier, seed):
                         if pre == "bigcas" and variant:
                             continue
                         yield dict(steps=[dict(tool=tool, switch=switch, append=append)], pre=pre, k=variant * 977 + 5)
+    # program names that cannot be stored as bytes: the save fails, the existing image must survive
+    for name in ("N\u20ac", "\u00c01", "\u540d\u524d"):
+        for switch in ("--to_cas", "--to_dsk"):
+            for pre in ("absent", "cas", "dsk"):
+                yield dict(steps=[dict(tool="asm", switch=switch, append=True, name=name)], pre=pre, k=11)
 
 
 _step = st.fixed_dictionaries(dict(tool=st.sampled_from(TOOLS), switch=st.sampled_from(SWITCHES), append=st.booleans()))
@@ -164,6 +169,8 @@ def execute(case):
                 fh.write(pre_bytes)
         with open(os.path.join(tmp, "prog.asm"), "w") as fh:
             fh.write("".join(PROGRAM))
+        with open(os.path.join(tmp, "noname.asm"), "w") as fh:
+            fh.write("".join(l for l in PROGRAM if " NAM " not in l))
         with open(os.path.join(tmp, "source.cas"), "wb") as fh:
             fh.write(make_cas([src_file]))
         with open(os.path.join(tmp, "source.dsk"), "wb") as fh:
@@ -174,10 +181,11 @@ def execute(case):
             if before is not None:
                 os.utime(target, ns=(10 ** 18, 10 ** 18))
             want_kind = {"--to_bin": "bin", "--to_cas": "cas", "--to_dsk": "dsk"}[step["switch"]]
+            odd_name = step.get("name")
             if step["tool"] == "asm":
-                argv = ["prog.asm", "--name", "PROG", step["switch"], "target.out"]
+                argv = ["noname.asm" if odd_name else "prog.asm", "--name", odd_name or "PROG", step["switch"], "target.out"]
                 script = "assembler.py"
-                new_data, new_name = prog.image, "PROG"
+                new_data, new_name = prog.image, odd_name or "PROG"
             else:
                 argv = ["source.cas" if step["tool"] == "fu_cas" else "source.dsk", step["switch"], "target.out"]
                 script = "file_util.py"
@@ -185,7 +193,7 @@ def execute(case):
             if step["append"]:
                 argv.append("--append")
             res = driver.run_cli(script, argv, cwd=tmp)
-            if res.status == "timeout" or "Traceback" in res.stderr:
+            if res.status == "timeout" or ("Traceback" in res.stderr and not odd_name):
                 return viol("step {} {}: {} {}".format(sidx, argv, res.status, res.stderr.strip().splitlines()[-1:] ),
                             fid="C10:crash", labels=labels)
             after = open(target, "rb").read() if os.path.exists(target) else None
@@ -219,7 +227,7 @@ def execute(case):
             if verdict == "permitted":
                 labels.append("permitted")
             if not changed:
-                if verdict == "new":
+                if verdict == "new" and not odd_name:
                     return viol("{}: no file was written; stdout={!r}".format(where, res.stdout[-200:]), fid="C10:not-created",
                                 labels=sorted(set(labels)))
                 continue
